@@ -82,7 +82,9 @@ C12T = [("Mc.Props.C12", "Mc.C12.C12_child_independent"), ("Mc.Props.C12", "Mc.C
 C13T = [("Mc.Props.C13", "Mc.C13.C13_total"), ("Mc.Props.C13", "Mc.C13.C13_total_decorator"), ("Mc.Props.C13", "Mc.C13.C12_decorator_never_tooMany"), ("Mc.Props.C13", "Mc.C13.C13_reject_fails"), ("Mc.Props.C13", "Mc.C13.C13_reject_stops"), ("Mc.Props.C13", "Mc.C13.C13_reject_no_write"), ("Mc.Props.C13", "Mc.C13.C13_reject_fails_sync"), ("Mc.Props.C13", "Mc.C13.C13_reject_outcome"), ("Mc.Props.C13", "Mc.C13.C13_reject_no_write_decorator")]
 C06LT = [("Mc.Props.C06Lift", "Mc.C06.C06_distinct_targets"), ("Mc.Props.C06Lift", "Mc.C06.C06_distinct_targets_cluster"), ("Mc.Props.C06Lift", "Mc.C06.C06_lift"), ("Mc.Props.C06Lift", "Mc.C06.C06_lift_create"), ("Mc.Props.C06Lift", "Mc.C06.C06_lift_ondelete"), ("Mc.Props.C06Lift", "Mc.C06.C06_lift_exact"), ("Mc.Props.C06", "Mc.C06.C06_delete_inv"), ("Mc.Props.C06", "Mc.C06.C06_update_inv")]
 
-C08T = [("Mc.Props.C07", "Mc.C07." + t) for t in ["C07_gate", "C07_child_happy", "C07_wait", "C07_progress", "C07_complete", "C07_complete_forall", "C07_claims_filtered"]]
+C08T = [("Mc.Props.C07", "Mc.C07." + t) for t in ["C07_gate", "C07_child_happy", "C07_wait", "C07_progress", "C07_complete", "C07_complete_forall", "C07_claims_filtered"]] + \
+       [("Mc.Props.C08", "Mc.C08." + t) for t in ["C08_never_back", "C08_progress", "C08_pending_shrinks", "C08_pending_drops", "C08_completes",
+                                                  "C08_rollout_completes", "C08_stays_complete", "syncRollingUpdate_eq_round", "flatOf_desired", "phase1_inv", "phase2_inv"]]
 
 C01T = [("Mc.Props.C01", "Mc.C01." + t) for t in ["silent_ret", "C01_updateGroup_quiet", "C01_deleteGroup_quiet", "C01_manage_quiet", "C01_equal_is_fix", "C01_ssa_quiet"]] + \
        [("Mc.Props.C01Closed", "Mc.C01." + t) for t in ["delete_live", "create_free", "deleteGroup_run", "createGroup_run"]] + \
